@@ -33,6 +33,9 @@ def gen_case(rng, tier):
     from .. import mixgen
     from ..apps import MAX_N
     cfg = mixgen.draw_config(rng)
+    if rng.random() < 0.15:
+        # a lease-honouring client: its requests wait for the server's (small, then unlimited) leases
+        cfg['lease'] = mixgen.draw_leases(rng)
     if rng.random() < 0.5:       # batching: request and CANCEL arrive in one read
         for k in ('knobs_c', 'knobs_s'):
             cfg[k].latency = ('none',)
